@@ -524,7 +524,35 @@ def exception_payloads_rule(ctx):
     exception_payloads(ctx, 'C16.exception-payloads', ['bumble.device', 'bumble.host', 'bumble.l2cap', 'bumble.gatt_client', 'bumble.smp', 'bumble.rfcomm', 'bumble.avdtp', 'bumble.sdp'])
 
 
+def sink_wrappers(ctx):
+    """An object that installs itself as the packet sink of a transport source stands between the transport and the host:
+    `BaseSource.on_transport_lost` only tells a sink that has `on_transport_lost`, so the wrapper must have it and pass it on."""
+    R, p = ctx.r, ctx.p
+    rule = 'C16.sink-wrappers'
+    n = 0
+    for mn, m in sorted(p.modules.items()):
+        if not (mn.startswith('bumble.transport') or mn in ('bumble.host', 'bumble.controller', 'bumble.hci_bridge', 'bumble.bridge')):
+            continue
+        for cls in [x for x in ast.walk(m.tree) if isinstance(x, ast.ClassDef)]:
+            methods = {f.name: f for f in cls.body if isinstance(f, FUNC)}
+            reg = [c for f in methods.values() for c in calls_in(f) if call_attr(c) == 'set_packet_sink' and len(c.args) == 1 and dotted(c.args[0]) == 'self' and dotted(c.func.value) != 'self']
+            if not reg or 'on_packet' not in methods:
+                continue
+            n += 1
+            key = f'{mn}.{cls.name} | on_transport_lost'
+            tl = methods.get('on_transport_lost')
+            if tl is None:
+                # host-like end points (no downstream sink) are the final consumer
+                fwd = any(call_attr(c) == 'on_packet' and (dotted(c.func.value) or '').startswith('self.') for c in calls_in(methods['on_packet']))
+                R.check(not fwd, rule, key, 'end point: consumes the packets itself', f'{cls.name} registers itself as the sink of a transport source and forwards packets to its own sink, but has no on_transport_lost: the loss of the transport stops here and the host keeps waiting for command responses', f'{m.rel}:{cls.lineno}')
+                continue
+            passes = any(call_attr(c) == 'on_transport_lost' and (dotted(c.func.value) or '').startswith('self.') for c in calls_in(tl)) or cls.name in ('Host',)
+            R.check(passes, rule, key, 'forwards the loss to its own sink / handles it', f'{cls.name}.on_transport_lost does not pass the loss on to its sink', f'{m.rel}:{tl.lineno}')
+    R.check(n >= 1, rule, 'bumble.transport | sink wrappers', f'{n} classes register themselves as a source\'s sink', 'no sink wrapper found (anchor moved)')
+
+
 RULES = [
+    ('C16.sink-wrappers', sink_wrappers),
     ('C16.exception-payloads', exception_payloads_rule),
     ('C16.iter-mutation', iter_mutation_rule),
     ('C16.listeners', listeners_rule),
